@@ -1,20 +1,10 @@
 #!/bin/bash
 # Run inside a scratch copy of /verif made by tools/mutant_run.sh (cwd = <scratch>/verif):
 #   tools/mutant_run.sh e1pull /verif/sensitivity/C11/mutN.diff bash e1_pull/tools/mut.sh C11 [extra args]
-# Adds the (candidate) known finding of C11 to the scratch known_findings.json so that only the
-# mutant's own violations decide the exit code, builds e1_pull against the patched repo copy with a
+# Builds e1_pull against the patched repo copy with a
 # shared target dir (same scratch path every time => only dfir_pipes + e1_pull rebuild), runs quick.
 set -u
 ID="$1"; shift
-python3 - <<'PY'
-import json,os
-p=os.path.join(os.environ["VERIF_DIR"],"known_findings.json")
-d=json.load(open(p))
-key="c11/size_hint_upper/future_in_flight"
-if not any(f.get("scenario_key")==key for f in d["findings"]):
-    d["findings"].append({"property":"C11","status":"known","scenario_key":key,"what":"FilterMapAsync::size_hint ignores the in-flight future (candidate finding, see e1_pull/FINDINGS.md)"})
-json.dump(d,open(p,"w"),indent=1)
-PY
 export CARGO_TARGET_DIR=/var/tmp/verif-scratch-e1_pull-muttarget
 (cd e1_pull && cargo build --release --offline 2>&1 | tail -3) || exit 2
 [ -x "$CARGO_TARGET_DIR/release/e1_pull" ] || { echo "build failed"; exit 2; }
